@@ -70,31 +70,37 @@ def job(item):
     base = observe(layout.render(variants["orig"]), True)
     bad = []
     res = {"id": cid, "origin": origin, "bad": bad, "n": 0}
-    for kind in ("renamed", "reversed", "single1", "single2", "single3"):
+    for kind in ("renamed", "renamed2", "reversed", "single1", "single2", "single3"):
         toks = variants[kind]
         if toks == variants["orig"]:
             continue
+
+        def add(clause, wit):
+            wit["text"] = layout.render(variants["orig"])
+            wit["variant"] = kind
+            wit["variant_text"] = layout.render(toks)
+            bad.append((clause, "", wit))
         res["n"] += 1
-        v = observe(layout.render(toks), kind == "renamed")
+        v = observe(layout.render(toks), kind.startswith("renamed"))
         if v["outcome"] != base["outcome"]:
-            bad.append((kind + "-changes-outcome", "", {"base": base["outcome"], "variant": v["outcome"]}))
+            add(kind + "-changes-outcome", {"base": base["outcome"], "variant_outcome": v["outcome"]})
             continue
         if base["outcome"] != "ok":
             continue
-        if kind == "renamed":
+        if kind.startswith("renamed"):
             if v["order"] != base["order"]:
-                bad.append(("renaming-changes-instantiations", "", {"base": base["order"], "variant": v["order"]}))
+                add("renaming-changes-instantiations", {"base": base["order"], "variant_order": v["order"]})
                 continue
             for k in base["order"]:
                 if v["recs"][k] != base["recs"][k]:
                     d = proj.diff(base["recs"][k][0], v["recs"][k][0]) or "pybind block differs"
-                    bad.append(("renaming-changes-instantiation", "", {"key": k, "detail": d}))
+                    add("renaming-changes-instantiation", {"key": k, "detail": d})
                     break
             else:
                 if v["pybind"] != base["pybind"]:
-                    bad.append(("renaming-changes-pybind-output", "", {}))
+                    add("renaming-changes-pybind-output", {})
                 if v["matlab"] != base["matlab"]:
-                    bad.append(("renaming-changes-matlab-output", "", {}))
+                    add("renaming-changes-matlab-output", {})
         else:
             # every instantiation of the variant exists in the original with the identical result
             for k in v["order"]:
@@ -102,31 +108,32 @@ def job(item):
                 cands = [x for x in base["order"] if x.split("#")[0] == kb]
                 if not any(base["recs"][x] == v["recs"][k] for x in cands):
                     d = proj.diff(base["recs"][cands[0]][0], v["recs"][k][0]) if cands else "no such instantiation in the original"
-                    bad.append((kind.rstrip("123") + "-changes-instantiation", "", {"key": k, "detail": d or "pybind block differs"}))
+                    add(kind.rstrip("123") + "-changes-instantiation", {"key": k, "detail": d or "pybind block differs"})
                     break
             if kind == "reversed" and sorted(x.split("#")[0] for x in v["order"]) != sorted(x.split("#")[0] for x in base["order"]):
-                bad.append(("reversal-changes-set-of-instantiations", "", {"base": base["order"], "variant": v["order"]}))
-    for b in bad:
-        b[2]["text"] = layout.render(variants["orig"])
-        b[2]["variant_text"] = layout.render(variants[b[0].split("-")[0] if b[0].split("-")[0] in variants else "renamed"])
+                add("reversal-changes-set-of-instantiations", {"base": base["order"], "variant_order": v["order"]})
     return res
 
 
 def classify(clause, wit):
     """deviations that are consequences of C02 known findings: an unsubstituted nested parameter keeps its spelling,
-    so renaming the parameter changes the output.  Recognised by the spelled fresh name 'Zq..' in the detail."""
+    so renaming the parameter changes the output.  Recognised by the fresh spelling (an identifier beginning with
+    'Zq') in the variant where the original has a declared parameter."""
     import re
     d = str(wit.get("detail", ""))
     m = re.search(r": '(.*)' != '(.*)'$", d)
-    if clause.startswith("renaming") and m and "Zq" in m.group(2) and m.group(2).replace("Zq", "") == m.group(1) \
-            and "<" in m.group(1):
-        # the only difference is the fresh spelling of a parameter left inside a template argument list
-        return "RenamingVisibleThroughUnsubstitutedNestedParam"
+    params = set(re.findall(r"(?:template <|,) (\w+)(?= =| ,| >)", wit.get("text", "")))
+    if clause.startswith("renaming") and m and "<" in m.group(1) and re.search(r"\bZq\w*", m.group(2)):
+        pat = re.sub(r"Zq\w*", "@@", m.group(2))
+        pat = re.escape(pat).replace("@@", r"(\w+)")
+        mm = re.fullmatch(pat, m.group(1))
+        if mm and all(g in params for g in mm.groups()):
+            # the only difference is the fresh spelling of a parameter left inside a template argument list
+            return "RenamingVisibleThroughUnsubstitutedNestedParam"
     if clause.startswith("renaming") and m and "<" in m.group(2):
         # consequence of C02-qualified-arg-last-component: in the original a first-level template argument `ns::P`
         # (P a parameter's spelling, not the parameter) was rewritten, in the renamed variant it is (correctly) kept
-        params = re.findall(r"(?:template <|,) (\w+)(?= =| ,| >)", wit.get("text", ""))
-        for p_ in set(params):
+        for p_ in params:
             if re.search(r"::%s\b" % re.escape(p_), m.group(2)):
                 pat = re.escape(m.group(2)).replace(re.escape("::" + p_), "::(.+?)")
                 if re.fullmatch(pat, m.group(1)):
@@ -179,7 +186,7 @@ def main():
     for c in allc:
         v = variants[c["id"]]
         v["orig"] = c["toks"]
-        if any(v[k] != c["toks"] for k in ("renamed", "reversed", "single1", "single2", "single3")):
+        if any(v[k] != c["toks"] for k in ("renamed", "renamed2", "reversed", "single1", "single2", "single3")):
             items.append((c["id"], c["origin"], v))
     res = common.pmap(job, items, chunksize=4)
     nvar = 0
